@@ -106,7 +106,7 @@ func ptExpr(r *rng, d int) string {
 	if d <= 0 {
 		return ptAtom(r)
 	}
-	switch r.intn(20) {
+	switch r.intn(27) {
 	case 0, 1:
 		return ptAtom(r)
 	case 2, 3, 4, 5, 6:
@@ -136,9 +136,59 @@ func ptExpr(r *rng, d int) string {
 		}
 	case 18:
 		return "[" + ptList(r, d, 3) + "]"
-	default:
+	case 19:
 		return "(" + ptExpr(r, d-1) + ")" + pick(r, []string{"(1)", "[0]", ".a", " + 1", " * 2", "(a, b)"})
+	case 20:
+		return pick(r, ptIdents) + pick(r, []string{"++", "--"})
+	case 21:
+		return pick(r, gBuiltin) + "(" + ptList(r, d, 2) + ")"
+	case 22:
+		name := ""
+		if r.intn(3) == 0 {
+			name = " " + pick(r, ptIdents)
+		}
+		return "func" + name + "(" + genParams(r) + ") " + ptBlock(r, d)
+	case 23:
+		s := "if " + ptExpr(r, d-1) + " " + ptBlock(r, d)
+		switch r.intn(4) {
+		case 0:
+			s += " else " + ptBlock(r, d)
+		case 1:
+			s += " else if " + ptExpr(r, d-1) + " " + ptBlock(r, d) + " else " + ptBlock(r, d)
+		case 2:
+			s += " else if " + ptExpr(r, d-1) + " " + ptBlock(r, d)
+		}
+		return s
+	case 24:
+		return "for " + ptExpr(r, d-1) + " " + ptBlock(r, d)
+	default:
+		return pick(r, []string{"break", "continue"})
 	}
+}
+
+func ptStmt(r *rng, d int) string {
+	switch r.intn(8) {
+	case 0:
+		return "return " + ptExpr(r, d)
+	default:
+		return ptExpr(r, d)
+	}
+}
+
+func ptBlock(r *rng, d int) string {
+	n := r.intn(4)
+	parts := make([]string, n)
+	for i := range parts {
+		parts[i] = ptStmt(r, d-1)
+	}
+	if n > 0 && r.intn(6) == 0 {
+		parts[n-1] = "return"
+	}
+	sep := pick(r, []string{"\n", "; ", "\n\t"})
+	if n == 0 {
+		return "{}"
+	}
+	return "{" + pick(r, []string{"", " ", "\n"}) + strings.Join(parts, sep) + pick(r, []string{"", " ", "\n"}) + "}"
 }
 
 func ptCallee(r *rng, d int) string {
@@ -164,7 +214,7 @@ func ptProgram(r *rng) string {
 	sep := pick(r, []string{"\n", "\n", "; ", ";", "\n\n"})
 	parts := make([]string, n)
 	for i := range parts {
-		parts[i] = ptExpr(r, 1+r.intn(4))
+		parts[i] = ptStmt(r, 1+r.intn(4))
 	}
 	s := strings.Join(parts, sep)
 	if r.intn(2) == 0 {
@@ -204,6 +254,23 @@ func printTokensGen(tier string, r *rng, emit func(string)) {
 			}
 			src(s1 + "\n" + s2 + "\n" + s1)
 		}
+	}
+	// blocks: statement adjacency inside function bodies and conditionals, `return` with and without a value
+	for _, s1 := range stmts {
+		for _, s2 := range stmts {
+			src("func(){" + s1 + "\n" + s2 + "}")
+			src("if a {" + s1 + "; " + s2 + "} else {" + s2 + "\n" + s1 + "}")
+		}
+		src("func f(a, b){" + s1 + "\nreturn " + s1 + "}")
+		src("func(a, ..){return " + s1 + "}(" + s1 + ")")
+		src("for " + s1 + " {" + s1 + "\nreturn}")
+		src("if " + s1 + " {" + s1 + "} else if " + s1 + " {" + s1 + "} else {" + s1 + "}")
+		src("if " + s1 + " {" + s1 + "} else {if " + s1 + " {" + s1 + "}}")
+		src("x = if " + s1 + " {" + s1 + "} else {" + s1 + "}\n" + s1)
+		src("len(" + s1 + ") + first(" + s1 + ", " + s1 + ")")
+		src(s1 + "\nreturn " + s1)
+		src(s1 + "\nreturn")
+		src("a++ + " + s1 + "\nb--\n" + s1)
 	}
 	n := 12000
 	if thorough {
